@@ -282,6 +282,11 @@ def _run(case) -> list[Failure]:
         raise core.InvalidCase
     served, eof, verdict, expected, why = build(case)
     decode = bool(case["decode"])
+    # the response-level default may differ from what each call asks for (the way `requests` drives urllib3: created with
+    # decode_content=False, read with decode_content=True); only calls that take the keyword can be driven that way
+    ctor_decode = case.get("ctor_decode", decode)
+    if ctor_decode is not decode and (ctor_decode is not False or not decode or case.get("via", "conn") != "conn" or case["tail"][0] in ("iter", "data", "drain", "readintoloop") or any(o[0] == "readinto" for o in case["ops"])):
+        raise core.InvalidCase
     via = case.get("via", "conn")
     drain = case["tail"][0] == "drain"
     if drain and via != "pool":
@@ -304,7 +309,7 @@ def _run(case) -> list[Failure]:
         try:
             if via == "conn":
                 conn = HTTPConnection("h.test", 80)
-                conn.request("GET", "/", preload_content=False, decode_content=decode)
+                conn.request("GET", "/", preload_content=False, decode_content=ctor_decode)
                 resp = conn.getresponse()
             else:
                 pool = urllib3.HTTPConnectionPool("h.test", 80, retries=False, maxsize=1)
@@ -475,6 +480,8 @@ def ex_cases(tier):
                         if not c12.valid(base) or (framing == "chunked" and respgen.families(base) == {"A", "B"}):
                             continue
                         yield base
+                        if coding and via == "conn" and tail[0] not in ("iter", "readintoloop") and not any(o[0] == "readinto" for o in ops) and (tier != "quick" or (n == 40 and not ops)):
+                            yield dict(base, ctor_decode=False)  # response default off, per-call decoding on (seed C13-H)
                         if framing == "cl" and coding in ([], ["gzip"]) and members == 1:
                             yield dict(base, cl_list=True)  # Content-Length: N, N
                         if framing == "chunked" and coding in ([], ["gzip"]) and members == 1:
@@ -532,6 +539,8 @@ def _hyp():
             if c["tail"][0] in ("readloop", "read1loop", "readintoloop", "stream", "read_chunked") and c["tail"][1] in (1, 2, 3, 7):
                 c["tail"] = [c["tail"][0], 1000]
         c["_salt"] = draw(st.integers(0, 10_000))
+        if c["decode"] and c["via"] == "conn" and c["tail"][0] not in ("iter", "data", "drain", "readintoloop") and not any(o[0] == "readinto" for o in c["ops"]) and draw(st.integers(0, 3)) == 0:
+            c["ctor_decode"] = False  # response created with decode_content=False, every call asks for decoding
         return c
 
     return base()
